@@ -13,7 +13,7 @@ import (
 )
 
 func runGrandpa(k *kernel.K) {
-	s := &gsim{k: k, cut: map[[2]int]bool{}}
+	s := &gsim{k: k, cut: map[[2]int]bool{}, chg: map[common.Hash]uint32{}}
 	if k.Prop == "C18" {
 		s.n = k.Range(1, 10, "voters")
 	} else {
@@ -30,6 +30,12 @@ func runGrandpa(k *kernel.K) {
 	s.crashes = k.Bool(1, 3, "crash-restarts-enabled")
 	// a third of the C21/C22 runs: the real finalisation.go goroutines, timers and vote tracker drive the rounds (real.go)
 	s.real = (k.Prop == "C21" || k.Prop == "C22") && k.Bool(1, 3, "real-round-driver")
+	// a fifth of the remaining C21 runs: blocks announce scheduled authority changes, which cap the votes
+	// (pending changes live in memory only, so no restarts in these runs)
+	s.authChanges = k.Prop == "C21" && !s.real && k.Bool(1, 5, "authority-changes")
+	if s.authChanges {
+		s.crashes = false
+	}
 	maxByz := (s.n - 1) / 3
 	nbyz := k.Choose(maxByz+1, "byzantine")
 	if s.targeted {
@@ -340,6 +346,12 @@ func (n *gnode) advance() {
 			return
 		}
 		want, unique := n.modelGhost(0)
+		if want != nil {
+			if c := n.s.capped(want); c != want {
+				k.Probe("precommit-capped-at-pending-authority-change")
+				want = c
+			}
+		}
 		stale := n.finHead() != svc.VerifHead().Hash()
 		if stale {
 			want, unique = nil, false
